@@ -83,6 +83,11 @@ CLAIMED = {
    text="Structural necessary conditions decided over every table entry: symbolToKeyword and keywordToSymbol are mutual inverses; each expanded keyword lexes to a token kind its symbol can produce and is not a compact keyword; the shared keyword arms of the two lexers have equal key sets and token kinds; punctuation arms and the '/'-disambiguation token set agree between the lexers; every quote-scanning function also handles the escape character; no unchecked default-buffer bufio.Scanner rewrites files.",
    note="Does not cover round-trip equality over all sources, idempotence of the formatter, layout. Trusted: go/ast, go/types, go/ssa.",
    ref="DESIGN.md §3 C18"),
+ "C10": dict(
+   technique="static analysis: sibling-table agreement over opcode and constant-tag tables (writer / VM / disassembler), bounded-allocation and length-guard dominance rules on untrusted buffers, recursion-guard coverage over the parser's call graph (SCC), loader-limit rules",
+   text="Structural necessary conditions decided over every table entry and site: each opcode has a VM arm, the same operand-ness in VM, compiler and decompiler, a name, matching emit sites and jump relocation; constant tags and widths agree between writer and both readers; every allocation sized from the input is behind a bound check; every non-constant index/slice of the bytecode buffers and of the lexers' input is behind a length comparison; Push caps the stack and runLoop bounds pc and steps; after removing depth-guarded functions the parser's call graph has no cycle (two precedence-climbing self-recursions are shape-verified exceptions).",
+   note="Does not cover memory proportionality in general, parser accept/reject correctness, disassembly text. Trusted: go/ast, go/types, go/ssa.",
+   ref="DESIGN.md §3 C10"),
 }
 
 NA_REASONS = {}
